@@ -17,6 +17,8 @@ RULE = ('container configs: capacity{None,0,1,2} x value limit{None,2} x immutab
         'del(k), merge_in(3 sources); canonical state = ordered items (dropped is checked per transition); resources: all 24^3 merge chains; '
         'create x env table; Deep.start x 0-2 resource plugins x both orders; non-trivial = an eviction, a rejection or an override happened'
         ' ; Resource.create with process.executable.name of every valid attribute value type')
+RULE_ADDED = 'round 4: a resource plugin providing a service name (real / empty); undecodable bytes inside sequences'
+RULE = RULE + ' ; ' + RULE_ADDED
 ASSUMPTIONS = ['dropped at capacity 0 is bounded below by the valid sets and above by all sets',
                'canonical state omits `dropped` because nothing reads it (checked per transition instead): bisimulation for bounded capacity']
 
